@@ -123,6 +123,10 @@ func NewChain(db dbm.DB, home string, accts []*Acct, balance int64, overrides ma
 		return nil, err
 	}
 	for k, v := range overrides {
+		if v == nil {
+			delete(gs, k) // a genesis file without this module's section
+			continue
+		}
 		gs[k] = v
 	}
 	stateBytes, err := json.Marshal(gs)
